@@ -16,10 +16,14 @@ LEVEL = 'exploration'
 RULE = ('binop: pairs of conforming files (same structure, independent '
         'payloads, mixed int/float dtype pairs, masked operands, injected '
         '0, +-inf, nan, negative bases) x 13 operators, with and without '
-        'declared coordinate variables; eval: 1-3 assignments from a small '
-        'expression grammar over variables/attributes; mask: every subset of '
+        'declared coordinate variables, one case in four chained '
+        '((a op b) op2 b); eval: 1-3 assignments from a small '
+        'expression grammar over variables/attributes (method and pncexpr; '
+        'an attribute may carry the name of a variable the expression reads)'
+        '; mask: every subset of '
         'up to 3 predicates of {less, less_equal, greater, greater_equal, '
-        'values, equal, invalid, where(+dims)} with coords on/off. '
+        'values, equal, invalid, where(+dims)} with coords on/off (method '
+        'and mask_vals string form). '
         'non-trivial = at least one non-coordinate variable was judged; '
         'distinct = digest of the spec.')
 ASSUMPTIONS = [
